@@ -61,6 +61,7 @@ T2On(r, ng, F, strict) == \A s \in Inputs : \A i \in 1..Len(s)+1 :
         /\ ToSet(o) \subseteq p
         /\ (o = <<>>) = (p = {})                                 \* is_match is order-free for EVERY pattern
         /\ strict => ToSet(o) = p
+        /\ FirstAt(r, ng, s, i, F) = (IF o = <<>> THEN <<>> ELSE o[1])     \* T2b: the backtracking evaluator
 T2_OrderFree == Done => LET N == Number(stk[1]) IN T2On(N.r, N.st.ng, fl, Strict(N.r))
 T3On(P) == \A s \in Inputs :
    LET ms == Matches(P, s) IN
@@ -96,7 +97,8 @@ CaseOf(P, s) ==
        [s |-> s, m |-> OpIsMatch(P, s).v, def |-> TRUE,
         r0 |-> OpReplace(P, s, ReplSpan), rg |-> OpReplace(P, s, Repl2),
         tok |-> OpTokens(P, s), ana |-> OpAnalyze(P, s),
-        treedef |-> \A j \in 1..Len(ms) : TreeDefinite(P, ms[j])]
+        capdef |-> ~P.iterambig,
+        treedef |-> ~P.iterambig /\ \A j \in 1..Len(ms) : TreeDefinite(P, ms[j])]
 BehOf(P) == [pat |-> Render(P.ast), flags |-> FlagCps(P.F), x |-> TRUE, ng |-> P.ng, nullable |-> P.nullable,
         strict |-> P.strict, langu |-> LangUnspec(P), repl2 |-> Repl2,
         cases |-> IF LangUnspec(P) THEN <<>> ELSE [k \in 1..Len(InputSeq) |-> CaseOf(P, InputSeq[k])]]
